@@ -344,7 +344,7 @@ func (p *jsParser) cond() *jsNode {
 }
 
 func jsPrec(t jsTok) int {
-	if t.k == "id" && t.s == "in" {
+	if t.k == "id" && (t.s == "in" || t.s == "instanceof") {
 		return 5
 	}
 	if t.k != "op" {
@@ -457,8 +457,10 @@ func (p *jsParser) primary() *jsNode {
 		case "this":
 			return &jsNode{k: "this"}
 		case "new":
-			// new Error(...) and the like: value is not used
 			e := p.postfix()
+			if e.k == "call" {
+				return &jsNode{k: "new", a: e.a, list: e.list}
+			}
 			return e
 		}
 		return &jsNode{k: "id", s: t.s}
@@ -498,9 +500,10 @@ func (p *jsParser) primary() *jsNode {
 // ---- values and evaluation ----
 
 type jsObj struct {
-	m    map[string]interface{}
-	keys []string
-	arr  []interface{}
+	m     map[string]interface{}
+	keys  []string
+	arr   []interface{}
+	proto *jsObj
 }
 
 type jsFunc struct {
@@ -508,6 +511,7 @@ type jsFunc struct {
 	body   []*jsStmt
 	env    *jsEnv
 	native func(args []interface{}) interface{}
+	props  *jsObj // properties of the function object (prototype)
 }
 
 type jsUndef struct{}
@@ -552,7 +556,7 @@ func jsNum(v interface{}) float64 {
 func jsTruthy(v interface{}) bool {
 	switch t := v.(type) {
 	case float64:
-		return t != 0 && t == t
+		return !math.IsNaN(t) && t != 0
 	case bool:
 		return t
 	case string:
@@ -606,7 +610,7 @@ func (vm *jsVM) global() *jsEnv {
 	g.vars["null"] = nil
 	g.vars["true"] = true
 	g.vars["false"] = false
-	g.vars["isNaN"] = &jsFunc{native: func(a []interface{}) interface{} { f := jsNum(a[0]); return f != f }}
+	g.vars["isNaN"] = &jsFunc{native: func(a []interface{}) interface{} { return math.IsNaN(jsNum(a[0])) }}
 	g.vars["parseFloat"] = &jsFunc{native: func(a []interface{}) interface{} {
 		if s, ok := a[0].(string); ok {
 			f, err := strconv.ParseFloat(s, 64)
@@ -644,13 +648,19 @@ func jsJoin(dir, rel string) string {
 	return dir + "/" + rel
 }
 
+// vMemoJSParse reads and parses one source file. The result is never modified
+// (the evaluator only reads the syntax tree), which lets the executor run this
+// once per worker instead of once per explored path.
+func vMemoJSParse(file string) []*jsStmt {
+	return (&jsParser{t: jsLex(vReadFile(file))}).program()
+}
+
 // require loads a module (path without .js, relative to the library root).
 func (vm *jsVM) require(path string) interface{} {
 	if m, ok := vm.modules[path]; ok {
 		return m
 	}
-	src := vReadFile(vm.root + "/" + path + ".js")
-	prog := (&jsParser{t: jsLex(src)}).program()
+	prog := vMemoJSParse(vm.root + "/" + path + ".js")
 	env := &jsEnv{vars: map[string]interface{}{}, parent: vm.global()}
 	module := jsNewObj()
 	exports := jsNewObj()
@@ -796,8 +806,17 @@ func (vm *jsVM) getMember(o interface{}, k string) interface{} {
 		if k == "length" && t.arr != nil {
 			return float64(len(t.arr))
 		}
-		if v, ok := t.m[k]; ok {
-			return v
+		for o := t; o != nil; o = o.proto {
+			if v, ok := o.m[k]; ok {
+				return v
+			}
+		}
+		return jsUndef{}
+	case *jsFunc:
+		if t.props != nil {
+			if v, ok := t.props.m[k]; ok {
+				return v
+			}
 		}
 		return jsUndef{}
 	}
@@ -813,8 +832,17 @@ func (vm *jsVM) assignTo(target *jsNode, v interface{}, env *jsEnv) {
 			env.vars[target.s] = v
 		}
 	case "member":
-		o := vm.eval(target.a, env).(*jsObj)
-		o.set(target.s, v)
+		switch o := vm.eval(target.a, env).(type) {
+		case *jsObj:
+			o.set(target.s, v)
+		case *jsFunc:
+			if o.props == nil {
+				o.props = jsNewObj()
+			}
+			o.props.set(target.s, v)
+		default:
+			panic("js: assignment to a member of a non-object")
+		}
 	case "index":
 		o := vm.eval(target.a, env).(*jsObj)
 		i := vm.eval(target.b, env)
@@ -865,11 +893,41 @@ func (vm *jsVM) eval(n *jsNode, env *jsEnv) interface{} {
 			return vm.getMember(o, s)
 		}
 		return o.(*jsObj).arr[int(jsNum(i))]
+	case "new":
+		f := vm.eval(n.a, env)
+		fn, ok := f.(*jsFunc)
+		if !ok {
+			return jsNewObj() // new Error(...) and the like: value is not used
+		}
+		o := jsNewObj()
+		if fn.props != nil {
+			if pr, ok := fn.props.m["prototype"].(*jsObj); ok {
+				o.proto = pr
+			}
+		}
+		o.set("constructor", fn)
+		args := make([]interface{}, len(n.list))
+		for i, a := range n.list {
+			args[i] = vm.eval(a, env)
+		}
+		if r, ok := vm.call(fn, o, args).(*jsObj); ok {
+			return r
+		}
+		return o
 	case "call":
 		var this interface{}
 		var f interface{}
 		if n.a.k == "member" {
 			this = vm.eval(n.a.a, env)
+			if ao, ok := this.(*jsObj); ok && ao.arr != nil && n.a.s == "map" {
+				fn := vm.eval(n.list[0], env)
+				r := jsNewObj()
+				r.arr = make([]interface{}, len(ao.arr))
+				for i, e := range ao.arr {
+					r.arr[i] = vm.call(fn, jsUndef{}, []interface{}{e})
+				}
+				return r
+			}
 			f = vm.getMember(this, n.a.s)
 		} else {
 			f = vm.eval(n.a, env)
@@ -942,6 +1000,21 @@ func (vm *jsVM) eval(n *jsNode, env *jsEnv) interface{} {
 		case ",":
 			vm.eval(n.a, env)
 			return vm.eval(n.b, env)
+		case "instanceof":
+			l, r := vm.eval(n.a, env), vm.eval(n.b, env)
+			o, ok1 := l.(*jsObj)
+			fn, ok2 := r.(*jsFunc)
+			if !ok1 || !ok2 || fn.props == nil {
+				return false
+			}
+			pr, _ := fn.props.m["prototype"].(*jsObj)
+			for q := o.proto; q != nil; q = q.proto {
+				if q == pr {
+					return true
+				}
+			}
+			// an object made by `new f` before f.prototype was assigned
+			return o.m["constructor"] == interface{}(fn)
 		case "in":
 			k := vm.eval(n.a, env).(string)
 			_, ok := vm.eval(n.b, env).(*jsObj).m[k]
